@@ -6,6 +6,7 @@ import Dia.StreamAll
 import Dia.Fixed
 import Dia.ClientPolite
 import Dia.ClientMulti
+import Dia.ClientMultiPolite
 import Dia.Tls
 import Dia.Accept
 /-! Line-protocol interpreter (DESIGN.md Appendix A): one operation per input line, one answer line
@@ -235,10 +236,21 @@ structure MCState where
   s : Cm.St := Cm.init
   answers : List (List (Nat × Nat)) := []   -- per connection: the peer's messages still to come, in stream order
   labels : Nat := 0
+  hist : Cm.Hist := {}
+  polite : Bool := true                      -- is the run so far one `C11_multi_delivery` speaks about?
+
+def politeMB (s : Cm.St) (hs : Cm.Hist) : Cm.Label → Bool
+  | .sendBegin h => !hs.usedIds.contains h && decide (0 < s.nC)
+  | .peerEmit _ (.msg m) => s.started.contains m.hbh && !hs.answered.contains m.hbh
+  | .peerEmit _ .bad => false
+  | _ => true
 
 def MCState.apply (r : MCState) (l : Cm.Label) (what : String) : Except String MCState :=
   match Cm.step r.s l with
-  | some s' => .ok { r with s := s', labels := r.labels + 1 }
+  | some s' =>
+    -- (the stop of a reader is replayed as a `bad` item; it does not count against the politeness of what came before)
+    let p := match l with | .peerEmit _ .bad => true | _ => politeMB r.s r.hist l
+    .ok { r with s := s', labels := r.labels + 1, hist := r.hist.step l, polite := r.polite && p }
   | none => .error ("step not enabled in the model: " ++ what)
 
 def MCState.applyAll (r : MCState) (ls : List Cm.Label) (what : String) : Except String MCState :=
@@ -329,7 +341,7 @@ def ctracemLine (evs answers : String) : String :=
     let anyStopped := (List.range r.s.nC).any fun c => r.s.reader c == Cl.Reader.stopped
     "accept " ++ (if res.isEmpty then "-" else String.intercalate "," res) ++ " | labels=" ++ toString r.labels ++
       " readers=" ++ String.intercalate "." ((List.range r.s.nC).map fun c => readerTag (r.s.reader c)) ++
-      " closed=" ++ bit r.s.closed ++ " anystopped=" ++ bit anyStopped ++ " | -"
+      " closed=" ++ bit r.s.closed ++ " anystopped=" ++ bit anyStopped ++ " polite=" ++ bit r.polite ++ " | -"
 
 /-! ### real-socket scenarios: predictions of the TLS table (C13) and of the listener model (C10) -/
 
